@@ -442,7 +442,9 @@ PROPS['C20'] = dict(
     level_text='Model-based exploration plus fault enumeration: histories of 6-25 operations over 1-3 objects drawn from the whole public API with valid and invalid arguments (construct, path-construct good/bad, read good/truncated/missing into empty '
                'and populated tables, fit good/bad, key edits, convolve, permute valid/invalid, move construction/assignment, comparison, write, getters+evaluation, grid evaluation, destroy) run with a checking allocator whose ledger (zero-length blocks included) detects leaks, double frees and '
                'foreign pointers; in half of the histories every object has its own arena (allocator instances that compare unequal), so a block returned to another arena than it came from is an error, and a third of the histories read files without auxiliary keys; after every operation the observable state is compared with the expectation (failed operation: unchanged or empty; populated table never silently overwritten; moved-from empty). Each history is then re-run with the k-th allocation '
-               'through the table\'s allocator throwing bad_alloc, for every k (sampled to 60 per history in the quick tier), transient and persistent; LeakSanitizer covers memory outside the allocator.',
+               'through the table\'s allocator throwing bad_alloc, for every k (sampled to 60 per history in the quick tier), transient and persistent, and once more with the k-th call of the global operator new made '
+               'inside a library call throwing (temporaries of permuteDimensions, convolve, the stacking constructor, string streams; sampled to 40 per history); LeakSanitizer covers memory outside the allocator. '
+               'The histories include the stacking constructor (valid and invalid requests; a stack of identical tables must be constant along the new dimension).',
     level_note=NOTE_COMMON + '; move assignment into a populated target is implemented by swap: the source must then hold the target\'s former contents (valid, owned, released once)',
     technique='runtime monitor: checking allocator ledger + abstract state model + allocation-failure enumeration, under ASan/UBSan/LSan',
     targets=[T('h_mem.cpp', 'asan')],
@@ -450,7 +452,7 @@ PROPS['C20'] = dict(
     level='fault_enumeration',
     rule='case = one history, executed once without faults and then once per sampled allocation index with that allocation failing; distinct_nontrivial counts distinct executed (history, fault position) pairs',
     assumptions=ASSUME_COMMON,
-    require={'any': {'histories': 100, 'faulted-histories': 2000, 'faults-fired': 1500, 'histories-with-one-arena-per-object': 30, 'move-assignments-between-arenas:storage-held': 8, 'write_key:first-key-on-a-populated-table-without-keys': 2}},
+    require={'any': {'histories': 100, 'faulted-histories': 2000, 'faults-fired': 1500, 'histories-with-one-arena-per-object': 30, 'operator-new-faults-fired': 1500, 'stacked-table-evaluations': 300, 'move-assignments-between-arenas:storage-held': 8, 'write_key:first-key-on-a-populated-table-without-keys': 2}},
 )
 
 
